@@ -9,6 +9,7 @@ import (
 	"strconv"
 	"strings"
 	"sync"
+	"sync/atomic"
 	"time"
 
 	"github.com/ThreeDotsLabs/watermill"
@@ -26,7 +27,8 @@ type c02Case struct {
 	Pre     int    `json:"pre"`     // 0 none, 1 ack, 2 nack
 	OutKind int    `json:"outkind"` // 0 ret, 1 fail, 2 panic
 	Outs    []int  `json:"outs"`    // 0 = the consumed object itself, i>0 = fresh message #i
-	PanicV  int    `json:"panicv"`  // 0 string, 1 error, 2 nil
+	PanicV  int    `json:"panicv"`  // panic: 0 string, 1 error, 2 nil; fail: 0 plain error, 1 wrapped context.Canceled (message ctx alive),
+	// 2 context.Canceled with the message context cancelled, 3 context.DeadlineExceeded with the message context expired
 	Pub     int    `json:"pub"`     // 0 accept, 1 error, 2 panic
 	Flight  int    `json:"flight"`  // messages in flight together with this one
 
@@ -130,6 +132,21 @@ func (g *c02Group) handler(msg *message.Message) ([]*message.Message, error) {
 	case 0:
 		return outs, nil
 	case 1:
+		switch c.PanicV {
+		case 1:
+			return outs, fmt.Errorf("wrapped: %w", context.Canceled)
+		case 2:
+			ctx, cancel := context.WithCancel(msg.Context())
+			msg.SetContext(ctx)
+			cancel()
+			return outs, fmt.Errorf("handler interrupted: %w", ctx.Err())
+		case 3:
+			ctx, cancel := context.WithTimeout(msg.Context(), time.Nanosecond)
+			msg.SetContext(ctx)
+			<-ctx.Done()
+			cancel()
+			return outs, ctx.Err()
+		}
 		return outs, errors.New("scripted handler error")
 	default:
 		switch c.PanicV {
@@ -213,6 +230,8 @@ func (g *c02Group) onPublish(call int, topic string, msgs []*message.Message) er
 	}
 }
 
+var c02Abort bool // set once a group saw messages that are never settled: later groups are not run
+
 func c02RunGroup(rt *hookrt.Runtime, pubKind int, mws []int, cases []*c02Case) error {
 	g := &c02Group{cases: map[string]*c02Case{}}
 	for _, c := range cases {
@@ -277,7 +296,16 @@ func c02RunGroup(rt *hookrt.Runtime, pubKind int, mws []int, cases []*c02Case) e
 	// batches of 1, 2, 4, 8 messages in flight
 	sizes := []int{1, 2, 4, 8, 3}
 	i, b := 0, 0
+	var unsettled int32
 	for i < len(cases) {
+		if atomic.LoadInt32(&unsettled) >= 3 || c02Abort {
+			c02Abort = true
+			// fail fast: messages are not being settled; the rest of the group is marked not run
+			for _, c := range cases[i:] {
+				c.rec("not-run")
+			}
+			break
+		}
 		n := sizes[b%len(sizes)]
 		b++
 		if i+n > len(cases) {
@@ -300,7 +328,10 @@ func c02RunGroup(rt *hookrt.Runtime, pubKind int, mws []int, cases []*c02Case) e
 					c.rec("not-taken")
 					return
 				}
-				c.Final = script.WaitSettled(c.msg, 5*time.Second)
+				c.Final = script.WaitSettled(c.msg, 3*time.Second)
+				if c.Final == 0 {
+					atomic.AddInt32(&unsettled, 1)
+				}
 			}(c)
 		}
 		wg.Wait()
@@ -344,6 +375,9 @@ func cmdC02(args []string) error {
 						pvs := []int{0}
 						if sh.kind == 2 {
 							pvs = []int{0, 1, 2}
+						}
+						if sh.kind == 1 {
+							pvs = []int{0, 1, 2, 3}
 						}
 						for _, pv := range pvs {
 							n++
